@@ -24,6 +24,28 @@ T = {
  "C19": ("proof", "call-graph effect analysis (who-may-call) over resolved callees; static inventory; thread-local / pointer-exposure scan"),
  "C20": ("proof", "name table vs dispatch table; own-attribute-type and offending-value provenance of every constructed DecodeError; Display arms"),
 }
+TEXT = {
+ "C01": "For all inputs and all 8 option sets at once: every arithmetic op, index, unwrap, unsafe precondition, reader precondition, reachable panic and loop ranking obligation in the decode closure is discharged (268 obligations, 3 MIR configurations in the thorough tier); Err lists proven non-empty. Proof level because the obligations are the property; wall-clock bounds and allocation failure are out of scope.",
+ "C02": "Every Reader call site of the codec is proven to request only octets that remain (contract side of an assume-guarantee argument whose other side is C18); 'same result for every conforming reader' follows from parametricity plus a structural no-reflection check and is recorded as an argument, not an enumeration.",
+ "C03": "Structural necessary conditions of decode(encode(v)) = v for all 40 variants and the control header (dispatch, per-partition layout and field agreement, no length-class rejection of encoder output). The value-level equation itself is not decided by a static argument in reach; hence 'other'.",
+ "C04": "All 16 L/S/O/P configurations and all field values at once: encoder layout, infeasibility of every rejecting decoder path on encoder output, field provenance agreement, payload extent, full consumption. Octet equality through to_be_bytes etc. is trusted std semantics; hence 'other'.",
+ "C05": "Conformance of the decoder's shape to independent RFC 2661 tables (per-kind layouts, minimum lengths, UTF-8 placement, strict header rules, vendor rule, non-influence of M/reserved AVP bits, extents). Full language equivalence on every input needs an executable reference (another technique family); hence 'other'.",
+ "C06": "Encoders are straight-line token emitters, so layout = output: every path's token layout (width, order, constant or field provenance), flag words, framing and length fields equal the independent spec tables, up to the trusted semantics of to_be_bytes/extend_from_slice/push.",
+ "C07": "Linear equalities between each back-patched length and the writer-length ghost, bit provenance of the AVP flag octet, 6+get_length = octets emitted on every path of every variant, tiling, hide's length subfield; every narrowing cast discharged by a dominating refusal.",
+ "C08": "Consumption ghost equals the declared length on every accepting path; event traces show isolation of the AVP region and of each AVP record; accepting paths bound the remaining input only from below, so trailing octets cannot change an accept.",
+ "C09": "For a symbolic prefix length and any conforming writer: every positional overwrite lies inside the value being encoded; no emitted octet or branch depends on an absolute position (taint dataflow).",
+ "C10": "Three structural necessary conditions of the one-round fixed point (decode image inside the encodable domain, no echo of received framing, verbatim retention) plus the C03/C04 round-trip cross-checks. The fixed-point equation over all accepted byte strings is not decided; hence 'other'.",
+ "C11": "hide and reveal cross-checked as siblings: plaintext shape, MD5 input compositions, XOR alignment, chain dependence by loop direction, inverse framing, acceptance of every fitting length. reveal(hide(a)) = a as an equation over values (XOR/MD5 semantics) is not decided; hence 'other'.",
+ "C12": "The construction coded in hide/reveal (plaintext layout, original length, minimal alignment, key input orders, chaining on ciphertext, block XOR, clear type, purity) equals the table written from RFC 2661 4.3. Octet-for-octet equality with a reference and the md5 crate are not decided; hence 'other'.",
+ "C13": "All obligations of AVP::reveal for every hidden value, attribute type, secret and random vector (Reader contract and SliceReader bodies); accepted values are non-empty multiples of 16; the result variant is the announced type.",
+ "C14": "Bit-level non-interference with all 8 option sets symbolic: each option consults exactly its own header bits and only when on; Yes-only regions only reject or rejoin; no decoded field depends on an option; default = {version}.",
+ "C15": "Structural clauses: one result per AVP record in wire order, vendor rule, loop stops only at an unusable length, first-AVP and all-ok tests on the same vector, complete unaltered lists, ZLB. Attribution e[i] <-> i-th bad record rests on std's filter_map/collect; hence 'other'.",
+ "C16": "Six finite code spaces decided exhaustively: the accept sets are defined by finitely many compiler-resolved rows, extracted by abstract execution and compared with the RFC tables and with each other (decode/encode inverse).",
+ "C17": "Symbolic bit provenance covers all four boolean combinations and all 2^32 words: constructor bit shape, accessor = own bit only, RFC position, identity on the wire.",
+ "C18": "Each of the 9+8 methods verified against the contract (requires => obligations discharged, ensures proven) from an arbitrary state satisfying the representation invariant; inductive, hence every call sequence.",
+ "C19": "Effect-freedom over the resolved call graph from every externally reachable function, plus the static inventory: a state-free, effect-free function of its arguments gives the same result on every repetition, interleaving and thread.",
+ "C20": "Table clauses decided exactly (name table = dispatch on all 65536 numbers, own attribute type, one total rendering arm per variant); offending-value clause by provenance; a first-AVP fault is reported as itself. Single-fault list attribution rests on C15."
+}
 props = [json.loads(l) for l in open(os.path.join(V, "properties.jsonl"))]
 have = sorted(os.path.basename(p)[:-3].upper() for p in glob.glob(os.path.join(V, "rules", "c[0-9][0-9].py")))
 old = json.load(open(os.path.join(V, "MANIFEST.json")))
@@ -34,7 +56,7 @@ for p in props:
         lvl, tech = T[pid]
         checks.append({"property_id": pid, "quick_cmd": "./check %s --tier quick" % pid, "thorough_cmd": "./check %s --tier thorough" % pid,
                        "evidence_file": "/verif/evidence/%s.json" % pid, "replay_cmd_template": "cat {path}", "engine": "E0 facts + lenflow/layout/tables/effects",
-                       "level_claimed": {"category": lvl, "text": "DESIGN.md section 4, %s: what is decided and what is not" % pid, "design_ref": "DESIGN.md#4-" + pid},
+                       "level_claimed": {"category": lvl, "text": TEXT[pid], "design_ref": "DESIGN.md sections 4 and 8.3, " + pid},
                        "level_note": "trusted base: rustc MIR, stub table of std/md5/phf semantics, Reader/Writer contract tables, spec/*.json as the reading of RFC 2661, own FM entailment (sound, incomplete)",
                        "technique": tech})
 na = [{"property_id": p["id"], "reason": "check under construction in this session (static rule planned in DESIGN.md section 4); not claimed until it exists"}
